@@ -51,7 +51,7 @@ def run(chk: core.Check):
         print("replay:", json.dumps({"path": c.get("path"), "violations": [(s, w) for s, w, _ in res[1]]}, default=str)[:3000])
         return absorb15(chk, [res])
     chk.exhaustive = True
-    jobs = c01.build_jobs(chk, opts, nrand_quick=60000, grid=True)
+    jobs = c01.build_jobs(chk, opts, nrand_quick=50000, grid=True)
     chk.extra_cov["bound_grid"] = "indexes and slice bounds -9..9 (all 361 pairs) on sequences of length 0..4"
     absorb15(chk, core.pmap(ev.compare_chunk, jobs))
     # collectors: outside the evaluator model; the exception type of the real queries is checked directly
